@@ -20,7 +20,7 @@ import (
 
 // Outcome is what the script does at a step.
 type Outcome struct {
-	Kind string `json:"kind"`           // ok | reply | drop | stall | garbage | dropafter (reply then close) | late
+	Kind string `json:"kind"`           // ok | reply | drop | stall | garbage | dropafter (reply then close) | late | multiline (the positive reply on three lines)
 	Code int    `json:"code,omitempty"` // for reply / dropafter
 	Text string `json:"text,omitempty"` // reply text (a tag naming the step is appended)
 	// DelayMS (kind "late"): the ordinary positive reply of the step is sent, but only after that many
@@ -541,6 +541,11 @@ func (s *Server) serve(rawConn net.Conn, implicitTLS bool, sess *Session) {
 			case "garbage":
 				c.reply("this is not an SMTP reply")
 				return 0
+			case "multiline":
+				// the ordinary positive reply of the step, spread over three lines ("250-...", "250-...", "250 ...")
+				if len(def) > 4 && !strings.Contains(def, "\n") {
+					def = def[:3] + "-" + def[4:] + "\n" + def[:3] + "-second line of the reply\n" + def[:3] + " third and last line"
+				}
 			case "late":
 				if s.LateHook != nil {
 					s.LateHook(step)
@@ -610,7 +615,7 @@ func (s *Server) serve(rawConn net.Conn, implicitTLS bool, sess *Session) {
 				}
 				if code >= 200 && code < 300 {
 					greeted, esmtp = true, true
-					if o.Kind == "ok" {
+					if o.Kind == "ok" || o.Kind == "late" || o.Kind == "multiline" {
 						caps = cs
 					} else {
 						caps = nil
@@ -721,7 +726,16 @@ func (s *Server) serve(rawConn net.Conn, implicitTLS bool, sess *Session) {
 			if inTxn {
 				sess.violate("auth-in-transaction", "AUTH during a mail transaction")
 			}
-			if o.Kind != "ok" {
+			if o.Kind == "late" {
+				// the exchange itself goes on as usual, it only starts late
+				if s.LateHook != nil {
+					s.LateHook(step)
+				}
+				select {
+				case <-time.After(time.Duration(o.DelayMS) * time.Millisecond):
+				case <-s.release:
+				}
+			} else if o.Kind != "ok" && o.Kind != "multiline" {
 				if send("") == -1 {
 					return
 				}
@@ -895,7 +909,7 @@ func (s *Server) serve(rawConn net.Conn, implicitTLS bool, sess *Session) {
 			step = eod
 			// the commit is recorded before the reply goes out, so a client that has read the reply
 			// can rely on seeing it
-			willCommit := o.Kind == "ok" || ((o.Kind == "reply" || o.Kind == "dropafter") && o.Code >= 200 && o.Code < 300)
+			willCommit := o.Kind == "ok" || o.Kind == "multiline" || o.Kind == "late" || ((o.Kind == "reply" || o.Kind == "dropafter") && o.Code >= 200 && o.Code < 300)
 			sess.mu.Lock()
 			txn.Committed = willCommit
 			sess.mu.Unlock()
